@@ -31,6 +31,19 @@ let () =
                 | _ -> failwith "cert") (String.split_on_char ',' spec) in
             let ms = List.map (fun m -> bytes_of (m ^ ".dll")) (String.split_on_char ',' mods) in
             "E " ^ String.concat "," (List.map (fun o -> match o with None -> "-" | Some c -> str_of c) (run_certs certs ms))
+          | "U" :: addrs :: rest ->
+            (* U a1,a2 base:size:namehex;...   -> per address the (name, offsets) entries, once for the JSON and once for the text report *)
+            let mods = match rest with
+              | m :: _ when m <> "-" -> List.map (fun e -> match String.split_on_char ':' e with
+                  | [b; sz; n] -> ((unhex n, z_of_string b), z_of_string sz) | _ -> failwith "umod") (String.split_on_char ';' m)
+              | _ -> [] in
+            let al = List.map z_of_string (String.split_on_char ',' addrs) in
+            let one = function
+              | None -> "P;;"
+              | Some [] -> "-"
+              | Some ents -> String.concat "," (List.map (fun (n, offs) -> hex n ^ "@" ^ String.concat "|" (List.map string_of_z offs)) ents) in
+            let r = String.concat ";" (List.map one (run_unloaded mods al)) in
+            "U " ^ r ^ " T " ^ r
           | "L" :: lsb :: status :: cpuinfo :: _ ->
             let ((fields, line), (pid, mc)) = run_linux (unhex lsb) (unhex status) (unhex cpuinfo) in
             Printf.sprintf "L %s pid=%s mc=%s line=%s" (String.concat "," (List.map hex fields)) (string_of_z pid)
